@@ -75,7 +75,7 @@ def app_call(run, ws, name, *args, **kw):
     w = run.world
     before = len(w.log)
     rec = dict(ev=len(run.events) - 1, name=name, args=args, kw=kw, ok=False, exc=None,
-               exc_type=None, t=w.now)
+               exc_type=None, t=w.now, log_before=before)
     try:
         getattr(ws, name)(*args, **kw)
         rec['ok'] = True
